@@ -153,6 +153,12 @@ def selftest(universe=('a', 'b', 'c'), maxlen=3):
             assert g == cur
             assert (len(u) == len(xs)) == nd(xs) and (not nd(xs) or u == xs)
             n += 1
+        # fold_self / keep_self: adding s to itself and keeping the elements of s that are in s give s
+        g = list(s)
+        for v in s:
+            if v not in g:
+                g.append(v)
+        assert g == list(s) and [v for v in s if v in set(s)] == list(s)
         if nd(s):
             for r in range(len(universe) + 1):
                 for Tset in itertools.combinations(universe, r):
@@ -185,6 +191,12 @@ def st_fold_dedup(s, xs):
     (what tools.Unique(xs) holds) to s equals adding xs to s -- both append the unseen names in the order given."""
     u = fold_add(empty, xs, slen(xs))
     return fold_add(s, u, slen(u)) == fold_add(s, xs, slen(xs))
+
+
+def st_fold_self(s):
+    """lemma.fold_self / lemma.keep_self (proved in Lean: lemmas/Seq.lean `lemma_fold_self`, `lemma_keep_self`): adding a sequence to itself and keeping
+    the elements of a sequence that are in it both give the sequence"""
+    return And(fold_add(s, s, slen(s)) == s, keep(s, setof(s)) == s)
 
 
 def complement(T):
